@@ -133,10 +133,44 @@ def _havoc(eng, ctx, spec):
         ctx.st = ctx.st.havoc(spec.mod_state, 'loop')
 
 
+def _exec_while_unwound(eng, s, ctx, n, k):
+    from .engine import Oblig
+    live = [ctx]
+    for it in range(n + 1):
+        nxt = []
+        for c in live:
+            for c1, t in eng.ev(s.test, c):
+                if isinstance(t, Raised):
+                    yield Out('raise', c1, t.exc)
+                    continue
+                for c2, side in eng.branch(c1, eng.truth(c1, t)):
+                    if not side:
+                        yield from eng.exec_block(s.orelse, c2)
+                        continue
+                    if it == n:
+                        # iteration n+1 must be unreachable
+                        eng.obligs.append(Oblig('loop%s.unwinding-%d-suffices' % (k, n), list(c2.pc) + list(eng.hyps_extra), z3.BoolVal(False), (), 'loop', info={}))
+                        continue
+                    for o in eng.exec_block(s.body, c2):
+                        if o.kind in ('next', 'continue'):
+                            nxt.append(o.ctx)
+                        elif o.kind == 'break':
+                            yield Out('next', o.ctx)
+                        else:
+                            yield o
+        live = nxt
+        if not live:
+            return
+
+
 def exec_while(eng, s, ctx):
     spec, k = loop_spec(eng, s)
     if spec is None:
         raise Unsupported('while loop without an invariant')
+    from .contract import Unwind
+    if isinstance(spec, Unwind):
+        yield from _exec_while_unwound(eng, s, ctx, spec.n, k)
+        return
     entry = ctx.st
     _emit_inv(eng, ctx, spec, LoopCtx(eng, ctx, entry, ctx.st), 'init', k)
     c = ctx.fork()
